@@ -43,6 +43,8 @@ pub type ReaderLock = parking_lot::RwLock<Box<dyn parity_db::TreeReader + Send +
 /// explicitly on drop.
 pub struct HeldLock {
 	reader: Reader,
+	/// the tree as read when the lock was taken: must stay readable and unchanged while held
+	pub snapshot: Option<Walk>,
 }
 
 impl Drop for HeldLock {
@@ -177,7 +179,9 @@ pub fn lock(ex: &mut Exec, c: u8, k: &B) -> Result<(), Fail> {
 	if let Some(tree) = tree {
 		let g = tree.read();
 		std::mem::forget(g);
-		ex.locks.insert((c, key), HeldLock { reader: tree });
+		ex.locks.insert((c, key.clone()), HeldLock { reader: tree, snapshot: None });
+		let snap = read_tree(ex, c, &key)?;
+		ex.locks.get_mut(&(c, key)).unwrap().snapshot = snap;
 	}
 	Ok(())
 }
@@ -193,6 +197,19 @@ fn expand_node(t: &TreeModel, id: u64) -> Walk {
 }
 
 pub fn check(ex: &Exec, c: u8, t: &TreeModel, queue_empty: bool) -> Result<(), Fail> {
+	// C11: a tree whose reader lock is held stays readable and unchanged, whatever was committed meanwhile
+	for ((lc, key), held) in ex.locks.iter() {
+		if *lc != c {
+			continue
+		}
+		let got = catch_unwind(AssertUnwindSafe(|| read_tree(ex, c, key)))
+			.map_err(|e| Fail::new("panic", format!("tree read panicked: {}", panic_msg(e))))??;
+		if got != held.snapshot {
+			return Err(Fail::new("locked-tree-changed", format!(
+				"tree c{}/{} changed while its reader lock is held: was {}, now {}", c, short_hex(key),
+				held.snapshot.as_ref().map_or("None".into(), |w| w.render()), got.as_ref().map_or("None".into(), |w| w.render()))))
+		}
+	}
 	for k in ex.universe[c as usize].iter() {
 		let exp = expand(t, k);
 		let got = catch_unwind(AssertUnwindSafe(|| read_tree(ex, c, k)))
